@@ -357,6 +357,39 @@ def pPar : P String := do
       out := out ++ "]"
     pure out
 
+/-- `nc <nres> names… <nsteps> <ncfg> cfgnames… <z0forcing 0/1>`: synthetic results whose values encode
+(tower name, step); prints what every cell / label / metadata slot of the written dataset holds -/
+def pNc : P String := do
+  let nres ← pNat
+  let names ← pNats nres
+  let nsteps ← pNat
+  let ncfg ← pNat
+  let cfgnames ← pNats ncfg
+  let z0f ← pBool
+  pEnd
+  let mkRes : Nat → Nat → NcResult := fun name t =>
+    { flx := fun c => Int.ofNat (name * 10000 + t * 100 + c), conc := fun c => -(Int.ofNat (name * 10000 + t * 100 + c)),
+      timestamp := Int.ofNat (500 + t), ustar := if z0f then none else some (Int.ofNat (7000 + t)),
+      mol := some (Int.ofNat (8000 + t)), windSpeed := some (Int.ofNat (9000 + t)), windDir := some (Int.ofNat (9500 + t)) }
+  let results : List (V × List NcResult) := names.map (fun n => (Int.ofNat n, (List.range nsteps).map (mkRes n)))
+  let towers : List NcTower := cfgnames.map (fun n => { name := Int.ofNat n, lat := Int.ofNat (n * 3 + 1), lon := Int.ofNat (n * 3 + 2), zm := Int.ofNat (n * 3 + 3) })
+  let ds := ncSave results towers
+  let mut out := "ok towers"
+  for l in ds.towerLabels do out := out ++ s!" {l}"
+  out := out ++ " times"
+  for l in ds.timeLabels do out := out ++ s!" {l}"
+  out := out ++ " cells"
+  for t in [0:nsteps] do
+    for ti in [0:nres] do
+      out := out ++ s!" {ds.footprint t ti 0},{ds.footprint t ti 3},{ds.concentration t ti 1}"
+  out := out ++ " met"
+  for t in [0:nsteps] do
+    out := out ++ s!" {showOpt (ds.ustar t)},{showOpt (ds.mol t)},{showOpt (ds.windSpeed t)},{showOpt (ds.windDir t)}"
+  out := out ++ " meta"
+  for ti in [0:nres] do
+    out := out ++ s!" {showOpt (ds.towerLat ti)},{showOpt (ds.towerLon ti)},{showOpt (ds.towerZ ti)}"
+  pure out
+
 def pInt : P Int := do
   let t ← tok
   match t.toInt? with
@@ -518,6 +551,7 @@ def dispatch : P String := do
   else if op == "single" then pSingle
   else if op == "rt" then pRt
   else if op == "par" then pPar
+  else if op == "nc" then pNc
   else failure
 
 def handle (line : String) : String :=
